@@ -101,11 +101,12 @@ def twins(rng, ops):
     first = pos[0]
     out = {"orig": list(ops)}
     out["ds0"] = ops[:first] + ["DS"] + ops[first:]
-    out["dsdd0"] = ops[:first] + ["DS", "DD"] + ops[first:]
     k = rng.choice(pos)
     out["dsK"] = ops[:k] + ["DS"] + ops[k:]
     k2 = rng.choice(pos)
-    out["ddK"] = ops[:k2] + ["DD"] + ops[k2:]
+    if not any(o.startswith("FILL") for o in ops):      # the DD detour fills/deletes 100..1399: keep it disjoint from FILL
+        out["dsdd0"] = ops[:first] + ["DS", "DD"] + ops[first:]
+        out["ddK"] = ops[:k2] + ["DD"] + ops[k2:]
     return out
 
 
@@ -179,6 +180,8 @@ def check_seqs(ctx, env, named_seqs, label):
             env.stats["transitions"]["sparse->dense"] += 1
         if fi.get("std", "").startswith("true"):
             env.stats["std_fastpath_final"] += 1
+        if fi.get("ts", "0") != "0":
+            env.ts_hits.setdefault("delete-nonconfigurable-element-stringifies-array", lines[k])
         if fi.get("exp", "ok") not in ("ok", "skip"):
             problems.append({"kind": "export", "name": name, "variant": vn, "line": lines[k], "impl": impl[k], "model": model[k]})
         if "info" in fi:
@@ -533,6 +536,7 @@ def main(ctx):
                  "sort_cases": {}, "method_cases": {}}
     env.tag_mismatch = []
     env.quirks = {}
+    env.ts_hits = {}
     ctx.stats.update(env.stats)
     thorough = ctx.tier == "thorough"
 
@@ -561,7 +565,7 @@ def main(ctx):
             check_sort(ctx, env, [e["case"]])
         elif e.get("type") == "meth":
             pass
-    nseq = 2500 if thorough else 450
+    nseq = 2500 if thorough else 300
     for k in range(nseq):
         ops = gen_seq(rng, allow_fill=(k % 4 == 0))
         seqs.append(("g%d" % k, twins(rng, ops)))
@@ -585,6 +589,9 @@ def main(ctx):
             continue
         seen.add(key)
         report_seq_problem(ctx, env, p)
+    for sig, line in env.ts_hits.items():
+        ctx.violation(sig, "a failed delete of a non-configurable element called the user-visible Array.prototype.toString: " + line[:200],
+                      {"kind": "history", "line": line, "expected": "ts=0 ([[Delete]] calls no user code)"})
     for q, line in env.quirks.items():
         ctx.violation("define-quirk-" + q, "element defineProperty deviates from ValidateAndApplyPropertyDescriptor (%s): %s" % (q, line[:200]),
                       {"kind": "history", "line": line, "note": "implementation = mechanism model, both differ from the spec (object.go _defineOwnProperty)"})
